@@ -6,6 +6,7 @@ import (
 	"hash/fnv"
 	"io"
 	"net"
+	"strings"
 	"sync/atomic"
 
 	"golang.org/x/net/dns/dnsmessage"
@@ -17,7 +18,7 @@ import (
 // resolved without touching the machine's resolver configuration or the network.
 //
 // Answers depend only on the name: hash%4 == 0 -> NXDOMAIN, otherwise A 127.0.0.1 (and AAAA ::1 when
-// hash%4 == 3). "echo.test" always resolves to 127.0.0.1.
+// hash%4 == 3). "echo.test" always resolves to 127.0.0.1; names starting with "nx" never resolve.
 
 var ownedLookups atomic.Int64
 
@@ -59,6 +60,9 @@ func serveOwnedDNS(c net.Conn) {
 		k := hh.Sum32() % 4
 		if name == "echo.test." {
 			k = 1
+		}
+		if strings.HasPrefix(name, "nx") { // names the harness needs to be unresolvable
+			k = 0
 		}
 		resp := dnsmessage.Message{
 			Header:    dnsmessage.Header{ID: h.ID, Response: true, RecursionDesired: true, RecursionAvailable: true},
